@@ -307,6 +307,59 @@ def estimator_refit_without_labels(case, seed):
     return findings, dict(continued=cont)
 
 
+def estimator_refit_other_arguments(case, seed):
+    """fit(set 1 with sample_weight) then fit(set 2 WITHOUT sample_weight) -- and the other way round -- must equal a fresh clone
+    given the second call only: an optional argument that is left out must not be remembered from an earlier fit (seed R9C13)."""
+    findings = []
+    data = case.data(seed)
+    kw1 = case.fit_kwargs(data, 1)
+    if "sample_weight" not in kw1 or kw1["sample_weight"] is None:
+        return findings, dict(skipped="no sample_weight in this configuration")
+
+    def drop(kw):
+        kw = dict(kw)
+        kw.pop("sample_weight", None)
+        return kw
+
+    for first_weighted in (True, False):
+        est, fresh = case.build(), case.build()
+        try:
+            k1 = case.fit_kwargs(case.data(seed), 1)
+            k2 = case.fit_kwargs(case.data(seed), 2)
+            k2f = case.fit_kwargs(case.data(seed), 2)
+            if first_weighted:
+                k2, k2f = drop(k2), drop(k2f)
+            else:
+                k1 = drop(k1)
+            _call(est.fit, **k1)
+            for m in case.predict_methods:
+                _call(getattr(est, m), X=data["X_test"])
+            _call(est.fit, **k2)
+            _call(fresh.fit, **k2f)
+            p_used = _predictions(est, case, data)
+            p_fresh = _predictions(fresh, case, data)
+        except Exception as e:  # noqa: BLE001
+            # a refit that raises where the fresh object would not is a finding of its own
+            try:
+                f2 = case.build()
+                kk = case.fit_kwargs(case.data(seed), 2)
+                _call(f2.fit, **(drop(kk) if first_weighted else kk))
+                _predictions(f2, case, data)
+                findings.append(dict(kind="history-leak", name="fit", method="fit",
+                                     what=f"fit {'with' if first_weighted else 'without'} sample_weight, then fit {'without' if first_weighted else 'with'}: "
+                                          f"the used object raises {type(e).__name__}: {str(e)[:80]} where a fresh clone works"))
+            except Exception:  # noqa: BLE001
+                pass
+            continue
+        for m in p_used:
+            if p_used[m] != p_fresh[m]:
+                findings.append(dict(kind="history-leak", name=m, method="fit",
+                                     what=f"fit {'with' if first_weighted else 'without'} sample_weight, then fit {'without' if first_weighted else 'with'} "
+                                          f"sample_weight on other data: `{m}` differs from a fresh clone given the second call only"))
+                break
+    return findings, {}
+
+
 def estimator_call_sequence(case, seed, rng, length=6):
     """Random sequence of public calls; get_params and arrays before/after every call."""
     findings = []
